@@ -274,6 +274,11 @@ class Prop(common.PropertyCheck):
                 if rng.random() < 0.5:
                     keys = [[{'t': 'slice', 'v': [None, None, None]}, {'t': 'name', 'v': 'ch0'}]] and keys
             yield {'N': N, 'D': D, 'keys': keys, 'touch': rng.random() < 0.7}
+        # assignments of a block of the sample itself that overlaps the addressed cells without coinciding with them (channels shifted by one)
+        for N, D in ((3, 3), (4, 4), (5, 5)):
+            for ck in ({'t': 'slice', 'v': [1, 3, None]}, {'t': 'slice', 'v': [1, D, None]}, {'t': 'name', 'v': 'ch1'}, {'t': 'pos', 'v': 1}):
+                for rk in ({'t': 'slice', 'v': [None, None, None]}, {'t': 'slice', 'v': [1, N, None]}, {'t': 'slice', 'v': [0, N - 1, None]}):
+                    yield {'N': N, 'D': D, 'keys': [[rk, ck]], 'set': True}
 
     # ---- implementation ---------------------------------------------------------
     def fingerprint(self, res, parent, D):
